@@ -1,20 +1,43 @@
 import os
 from engine import Query
+from engine import load_kf
 META = {
- 'functions': [],
- 'bounds': '',
- 'outside': '',
- 'assumptions': [],
+ 'functions': [
+  'QExpression::operator+= -= *= /= % ^= &= |= < <= > >= ==, operator>(n), operator!=(n), PowerOf (QExpression.hpp:162-901)',
+  'TemplateCore::evaluateExpression, isEqual (Template.hpp:1500-1783) - real code, symbolic kinds and 64-bit payloads',
+  'TemplateCore::evaluate (Template.hpp:1406-1438): one frame against the contract of its own recursive call (self_stubs), plus the whole recursion on short lists',
+  'TemplateCore::GetExpressionValue, getValue (Template.hpp:1351-1498)',
+  'TemplateCore::getOperation, isExpression, parseExpressions, parseValue (Template.hpp:1785-2065); StringUtils::TrimLeft/TrimRight',
+ ],
+ 'bounds': '(a) kernels: every kind pair (Natural/Integer/Real) with arbitrary 64-bit payloads (reals finite) for + - * / % & | < <= > >= == != && ||, against __int128 / IEEE-double '
+           'references, results restricted to the 64-bit kind the promotion rule gives; ^: integral bases of 4 bits with every exponent |e| <= 6 (quick) / 15 (thorough) and 64-bit bases with '
+           '|e| <= 3, non-integral real operands; == / != dispatch over literal numbers, literal text (<= 2 / 3 units) and variables of every kind (stand-in value).  '
+           '(b) precedence: lists of K <= 5 (quick) / 7 (thorough) items, every operator symbolic, every starting rank - modular induction over the list length; whole recursion K <= 2 / 3; '
+           'documented levels vs rank table as exact values K <= 4 / 5.  (c) text: fully symbolic texts of every length L <= 4 (quick) / 6 (thorough) in exact-size buffers for '
+           'getOperation / isExpression / the parseExpressions driver, operand stretches up to 8 / 9 units for parseValue; char (scanners also char16_t, char32_t).',
+ 'outside': 'longer lists / texts; integer powers with |e| > 15 or wide bases with |e| > 3 (64-bit Integer bases with |e| = 2 are not decided by any back end and are left out); '
+            'the product is checked as "kind rule + low 64-bit word of the exact product" (no back end proves a 128-vs-64-bit multiplier equivalence); real results are compared bit-exactly '
+            'with the IEEE operation on the promoted operands, not with exact rationals; bitwise operators on non-integral reals; 0^0 and 0^-n (engine: 0; open question); '
+            'Digit::StringToNumber (C09) and nested lists are contract stubs in (c); Natural % with operands >= 2^63 only through the finding query while that finding is open.',
+ 'assumptions': [
+  'SymValue stand-in for Value_T (q2c/standins/sym_value.hpp): GetValue / GetNumberType / SetNumber / SetCharAndLength / IsString / Length answer from symbolic fields '
+  'constrained by sym_value_consistent (what the real Value guarantees); FixedStream for StringStream_T (unused by the expression code)',
+  'precedence is proved modularly: evaluate() body with GetExpressionValue, evaluateExpression and its own recursive call replaced by harness functions '
+  '(item fetch log, injective tree encoder, contract "consumes up to the first operator of rank <= previous, returns the climbing tree"); induction over the number of items',
+  'the rank table rank(op) = QOperation code refines the documented six levels (h_rank); inside a documented level different operators are ranked '
+  '(^ over %, / over *, - over +, & over |, < > <= >= != == descending, && over ||) - documented order silent, reported as open question; value-equal for + - and * /',
+  'parseExpressions / parseValue are proved against each other through logging contract stubs (mutual recursion), getOperation inside the driver is the real one',
+ ],
 }
 PRIV = ['-Dprivate=public', '-Dprotected=public']
-if os.environ.get('C04_FIXDIR'):     # validation aid: force-include a patched copy of the headers (proposed fixes), never used by ./check runs
-    PRIV = PRIV + ['-include', os.path.join(os.environ['C04_FIXDIR'], 'Template.hpp')]
+def _fixed(kid):
+    e = load_kf().get(kid)
+    return bool(e) and e.get('status') == 'fixed'
 KN = {1: 'real', 2: 'nat', 3: 'int'}
 OPN = {1: 'or', 2: 'and', 3: 'eq', 4: 'ne', 5: 'ge', 6: 'le', 7: 'gt', 8: 'lt', 9: 'bor', 10: 'band', 11: 'add', 12: 'sub', 13: 'mul', 14: 'div', 15: 'rem', 16: 'pow'}
 MANUAL_KF = os.environ.get('C04_KF_MANUAL')     # testing aid while the ids are not yet in known_findings.json
 def kq(name, entry, defs, kf_excl=(), kf_only=None, **kw):
     defs = dict(defs)
-    if os.environ.get('C04_BACKEND'): kw['backend'] = os.environ['C04_BACKEND']
     if MANUAL_KF:
         for k in kf_excl: defs['KF_EXCL_' + k.replace('-', '_')] = 1
         if kf_only: defs['KF_ONLY_' + kf_only.replace('-', '_')] = 1
@@ -44,6 +67,9 @@ def kernel_queries(tier):
     qs.append(kq('kernel/rem/kf-zero', 'h_rem', {'LK': 0, 'RK': 0}, kf_only='C04-rem-zero', extra_cbmc=SOV, timeout=300))
     qs.append(kq('kernel/rem/kf-overflow', 'h_rem', {'LK': 0, 'RK': 0}, kf_only='C04-rem-overflow', extra_cbmc=SOV, timeout=300))
     qs.append(kq('kernel/rem/kf-natural', 'h_rem', {'LK': 0, 'RK': 0, 'REM_WIDE': 1}, kf_only=KF_NATR, timeout=300))
+    if _fixed(KF_NATR):      # once repaired: Natural operands >= 2^63 against the remainder on magnitudes
+        for lk, rk in ((2, 2), (2, 3), (3, 2), (2, 1), (1, 2)):
+            qs.append(kq('kernel/rem/wide/%s-%s' % (KN[lk], KN[rk]), 'h_rem', {'LK': lk, 'RK': rk, 'REM_WIDE': 1}, backend='cvc5', extra_cbmc=SOV, timeout=600))
     for op in (9, 10):
         qs.append(kq('kernel/%s/int' % OPN[op], 'h_bit', {'OPER': op, 'LK': INTS, 'RK': INTS}, timeout=300))
         for lk in (1, 2, 3):
@@ -104,7 +130,7 @@ def prec_queries(tier):
     for k in range(2, (4 if tier == 'quick' else 5) + 1):
         PQ('prec/docfine/K%d' % k, 'h_docfine', {'K': k, 'VB': 2}, {}, {'pick_list|h_.*|yard|ambiguous': k + 1, 'arith': 5}, {})
     # one frame of evaluate() against the contract of its own recursive call (self_stubs): lists of up to KM items, any starting rank
-    KM = 6 if tier == 'quick' else 8
+    KM = 5 if tier == 'quick' else 7       # 7 items fill the 64-bit tree code exactly
     KFP = 'C04-prec-return'
     for k in range(1, KM + 1):
         b = {'_ZN6Qentem5ArrayINS_11QExpressionEED2Ev': 1, '_ZN6Qentem11QExpressionD2Ev': 1, 'pick_list|build.*|h_.*': k + 1, 'ref_tree|first_leq|fn_eval_contract|frame_hits_finding': k + 1,
@@ -147,6 +173,11 @@ def parse_queries(tier):
         qs.append(pq('parse/getop/L%d' % l, 'h_getop', d, kf_excl=[KF_OOB], bounds=b, cflags=PRIV, timeout=600))
         qs.append(pq('parse/isexpr/L%d' % l, 'h_isexpr', d, bounds=b, cflags=PRIV, timeout=600))
         qs.append(pq('parse/driver/L%d' % l, 'h_driver', d, kf_excl=[KF_OOB], bounds=b, cflags=PRIV, stubs={PVAL: 'fn_parse_value'}, replay='none', timeout=900))
+    for ch in ('char16_t', 'char32_t'):        # the scanners are width-generic: one length per wider unit
+        l = N - 1
+        b = {'vf_buf.*': l + 1, 'getOperation|isExpression|ref_next|ref_binary': l + 1}
+        qs.append(pq('parse/getop/%s/L%d' % (ch, l), 'h_getop', {'L': l, 'CHAR': ch}, kf_excl=[KF_OOB], bounds=b, cflags=PRIV, timeout=600))
+        qs.append(pq('parse/isexpr/%s/L%d' % (ch, l), 'h_isexpr', {'L': l, 'CHAR': ch}, bounds=b, cflags=PRIV, timeout=600))
     qs.append(pq('parse/getop/kf-oob', 'h_getop', {'L': 2}, kf_only=KF_OOB, bounds={'vf_buf.*': 3, 'getOperation|isExpression|ref_next|ref_binary': 3}, cflags=PRIV, timeout=300))
     for l in ([2, 4, 8] if tier == 'quick' else [1, 2, 3, 4, 5, 6, 8, 9]):
         b = {'vf_buf.*': l + 1, 'h_value|TrimLeft|TrimRight|parseValue': l + 1, 'Dispose|~Array|Array|operator\\+=|Insert|.*QExpression.*|fn_.*|Copy': 3, 'vf_mem.*': 40}
